@@ -25,7 +25,9 @@ impl<U> crate::fold::Fold<U> for ConstantOptimizer {
     }
     fn fold_expr(&mut self, node: crate::Expr<U>) -> Result<crate::Expr<U>, Self::Error> {
         match node {
-            crate::Expr::Tuple(crate::ExprTuple { elts, ctx, range }) => {
+            crate::Expr::Tuple(crate::ExprTuple { elts, ctx, range })
+                if matches!(ctx, crate::ExprContext::Load) =>
+            {
                 let elts = elts
                     .into_iter()
                     .map(|x| self.fold_expr(x))
